@@ -297,7 +297,9 @@ func runC29(c *Ctx) {
 			dep := func(names ...string) func(ssa.Value) bool {
 				return func(v ssa.Value) bool {
 					for _, nme := range names {
-						if !ssau.DependsOn(v, func(y ssa.Value) bool { return ssau.IsFieldOf(y, "Committee", nme) || ssau.IsFieldOf(y, "KeyFrame", nme) || ssau.IsFieldOf(y, "", nme) }) {
+						if !ssau.DependsOn(v, func(y ssa.Value) bool {
+							return ssau.IsFieldOf(y, "Committee", nme) || ssau.IsFieldOf(y, "KeyFrame", nme) || ssau.IsFieldOf(y, "", nme)
+						}) {
 							return false
 						}
 					}
